@@ -510,6 +510,12 @@ def groups(ctx):
   ev = outer[0]
   node, head = ev[1], ev[2]
   name_sym = head.env.get(node.target.id) if isinstance(node.target, ast.Name) else None
+  if name_sym is None and isinstance(node.target, (ast.Tuple, ast.List)):
+    # for name, entry in zip(layer_names, ...): the element that walks the `layer_names` parameter
+    zs = getattr(head, 'zipsrc', {})
+    hits = [t.id for t in node.target.elts if isinstance(t, ast.Name) and isinstance(zs.get(t.id), ast.Name) and zs[t.id].id == 'layer_names']
+    if len(hits) == 1:
+      name_sym = head.env.get(hits[0])
   n_paths = 0
   keys_seen = set()
   ok_member = True
